@@ -303,9 +303,32 @@ def gen_frontend_case(rng, cid):
             cell[ax] = [0.0, 0.0, 0.0]
     pos = [[rng.uniform(0, L) for _ in range(3)] for _ in range(n)]
     num = [rng.choice(ELEMENTS) for _ in range(n)]
+    # two thirds of the cells are NOT diagonal: the non-zero vectors are sheared into each other and the whole structure is
+    # rotated rigidly, so that "cell vector i is zero" (a row) differs from "cartesian component i vanishes" (a column)
+    shape = rng.choice(["diagonal", "sheared", "rotated"])
+    if shape != "diagonal":
+        import numpy as _np
+        cm = _np.array(cell, dtype=float)
+        nz = [i for i in range(3) if not zero[i]]
+        for i in nz:
+            for j in nz:
+                if i != j and rng.random() < 0.5:
+                    cm[i] = cm[i] + rng.choice([-0.4, 0.3, 0.5]) * _np.array(cell[j])
+        pm = _np.array(pos, dtype=float)
+        if shape == "rotated":
+            q = _np.array([rng.gauss(0, 1) for _ in range(4)])
+            q /= _np.linalg.norm(q)
+            w, x, y, z = q
+            R = _np.array([[1 - 2 * (y * y + z * z), 2 * (x * y - z * w), 2 * (x * z + y * w)],
+                           [2 * (x * y + z * w), 1 - 2 * (x * x + z * z), 2 * (y * z - x * w)],
+                           [2 * (x * z - y * w), 2 * (y * z + x * w), 1 - 2 * (x * x + y * y)]])
+            cm = cm @ R.T
+            pm = pm @ R.T
+        cell = cm.tolist()
+        pos = pm.tolist()
     return {"id": cid, "mode": "real", "matrix": False, "twice": False, "frontend": True,
             "structure": {"numbers": num, "positions": pos, "cell": cell, "pbc": pbc},
-            "params": {"seed": rng.randrange(100)}, "meta": {"kind": "frontend", "zero": zero, "pbc": pbc},
+            "params": {"seed": rng.randrange(100)}, "meta": {"kind": "frontend", "zero": zero, "pbc": pbc, "shape": shape},
             "time_limit": 60}
 
 
